@@ -174,7 +174,7 @@ def main():
         rng = random.Random(check.seed)
         cases = []
         combos = [(m, t) for m in (0, 1, 2, 5, 20) for t in (1, 2, 3, 5)]
-        n = int((800 if check.thorough else 96) * check.scale)
+        n = int((800 if check.thorough else 192) * check.scale)
         for i in range(n):
             m, t = combos[i % len(combos)] if i < len(combos) or check.thorough else rng.choice(combos)
             fams = [f for f in FAMILIES if f != 'auth401']
